@@ -402,7 +402,9 @@ def callBuiltin (name : Str) (args : List (Val F)) (st : St F) : Option (Res F (
   | "grid" => .ok .none (emit st (.gfx "gridn" [.num (ops.ofInt 10), .str (lit "hsl(0deg 100% 0% / 50%)")]))
   | "gridn" =>
     match args with
-    | [.num u, .str c] => .ok .none (emit st (.gfx "gridn" [.num u, .str c]))
+    | [.num u, .str c] =>
+      if !(ops.lt ops.zero u) then badArgs st     -- builtin.go gridnFunc: `!(unit.V > 0)`
+      else .ok .none (emit st (.gfx "gridn" [.num u, .str c]))
     | _ => gp "gridn: assertion" st
   | "poly" =>
     let rec verts (vs : List (Val F)) : Except Outcome (List F) :=
